@@ -77,6 +77,17 @@ pub fn run(seed: u64, count: usize, thorough: bool, out: &mut Out) {
             emit(out, &bytes[..k], rng.below(8), rng.below(3), "prefix");
         }
     }
+    // 1b. prefixes with one multi-byte character somewhere inside (byte length and character count differ at the cut)
+    for k in 1..=bytes.len() {
+        if thorough || k % 3 == 0 || k + 120 > bytes.len() {
+            let j = rng.below(k);
+            let s = *rng.pick(&["\u{e9}".as_bytes(), "\u{2028}".as_bytes(), "\u{1F600}".as_bytes()]);
+            let mut x = bytes[..j].to_vec();
+            x.extend_from_slice(s);
+            x.extend_from_slice(&bytes[j + 1..k]);
+            emit(out, &x, rng.below(8), rng.below(3), "prefix-nonascii");
+        }
+    }
     // 2. every single-token replacement by each token class
     let toks = ciftext::tokens(&base);
     for i in 1..toks.len() {
